@@ -227,6 +227,16 @@ def c02_witnesses(tier='quick'):
             f'{what}: refused instead of silently keeping the last one')
     add('repeat-twin', '#[nutype(sanitize(with = |x| x + 1), validate(greater = 5, less = 30), derive(Debug, Clone, Default), default = 7)]\npub struct T(i32);\n', 'pass',
         'twin: the same rules in single blocks are accepted')
+    # a validate(..) block mixing built-in rules with with/error cannot be honoured: refused in every order
+    import itertools
+    pre2 = '#[derive(Debug)] pub enum E { Bad }\npub fn chk(x: &i32) -> Result<(), E> { if *x % 2 == 0 { Ok(()) } else { Err(E::Bad) } }\n'
+    parts = {'w': 'with = chk', 'e': 'error = E', 'b': 'greater_or_equal = 0', 'c': 'less_or_equal = 100'}
+    for perm in itertools.permutations('webc'):
+        txt = ', '.join(parts[k] for k in perm)
+        add('mixed-' + ''.join(perm), pre2 + f'#[nutype(validate({txt}))]\npub struct T(i32);\n', {'fail': None, 'msg': None},
+            f'`validate({txt})`: built-in rules next to with/error would be dropped silently; refused')
+    add('mixed-twin-custom', pre2 + '#[nutype(validate(with = chk, error = E))]\npub struct T(i32);\n', 'pass', 'twin: with + error alone is accepted')
+    add('mixed-twin-builtin', pre2 + '#[nutype(validate(greater_or_equal = 0, less_or_equal = 100))]\npub struct T(i32);\n', 'pass', 'twin: the built-in rules alone are accepted')
     # literal-then-operator bounds are refused, not altered
     add('lit-then-op', '#[nutype(validate(less = 1 << 4))]\npub struct T(i32);\n', {'fail': None, 'msg': None}, '`less = 1 << 4` (literal followed by an operator) is refused, not read as `less = 1`')
     add('lit-then-op-twin', '#[nutype(validate(less = (1 << 4)))]\npub struct T(i32);\n', 'pass', 'twin: the parenthesised expression is accepted')
